@@ -55,6 +55,7 @@ class Harness:
     budget: int = 0
     text: str = ''              # harness source text (for evidence samples)
     mod: str = 'verif_kani'     # name of the cfg(kani) module the harness lives in
+    uses_stub: bool = False     # a #[kani::stub(..)] attribute sits above the harness fn
 
 
 @dataclass
@@ -148,6 +149,12 @@ def parse_unit(path: str) -> Unit:
                         j += 1
                     h.text = '\n'.join(buf)
                     h.mod = cur_mod
+                    k = i - 1
+                    while k >= 0 and lines[k].strip().startswith('#['):
+                        if lines[k].strip().startswith('#[kani::stub('):
+                            h.uses_stub = True
+                            h.text = lines[k] + '\n' + h.text
+                        k -= 1
                     harnesses.append(h)
                     pending_h = None
         i += 1
